@@ -91,7 +91,7 @@ pub fn run_case_best(c: &Case) -> Option<Ply> {
     sv::CACHE_OFF.store(c.cache == "off", Ordering::Relaxed);
     sv::POLLS.store(0, Ordering::Relaxed);
     sv::STOP_AT_POLL.store(if c.stop == 0 { u64::MAX } else { c.stop }, Ordering::Relaxed);
-    *sv::RECORDER.lock().unwrap() = Some(Vec::new());
+    *sv::RECORDER.lock().unwrap() = if c.tag.contains("deep") { None } else { Some(Vec::new()) };
     // exactly what `Uci::go` builds for `go depth D [nodes N]`: the depth limit is in the limits too
     let limits = SearchLimits::new().nodes(c.nodes).depth(Some(c.depth));
     let mut search = Search::new(&board, Some(limits));
@@ -285,6 +285,24 @@ pub fn search_stream(args: &[String]) {
             }
         }
         "mate" => mate_mode(&mut rng, count, maxdepth, shard, of),
+        "deep" => {
+            // few, large searches (hundreds of thousands of cached entries) repeated in ONE process from an emptied cache:
+            // only the implementation's own runs are compared with each other (the driver skips the model for `tag=deep`)
+            let busy = [
+                "3qr2k/1p3rbp/2p3p1/p7/P2pBNn1/1P3n2/6P1/B1Q1RR1K b - - 1 30",
+                "r3k2r/p1ppqpb1/bn2pnp1/3PN3/1p2P3/2N2Q1p/PPPBBPPP/R3K2R w KQkq - 0 1",
+                "r1bq1rk1/pp2b1pp/n1pp1n2/3P1p2/2P1p3/2N1P2N/PP2BPPP/R1BQ1RK1 b - - 2 10",
+                "4r2k/1p3rbp/2p1N1p1/p3n3/P2NB1nq/1P6/4R1P1/B1Q2RK1 b - - 4 32",
+            ];
+            for fen in busy.iter().take(count) {
+                if !mine(&mut idx) {
+                    continue;
+                }
+                for _ in 0..repeat.max(2) {
+                    run_case(&Case { fen: fen.to_string(), moves: vec![], depth: maxdepth, nodes: None, stop: 0, cache: "fresh", tag: "tag=deep".to_string() });
+                }
+            }
+        }
         "game" => {
             // a game as a GUI plays it: search, play the answer, a random reply, search again — the cache is kept throughout
             let plies: usize = arg(args, "plies", 8);
